@@ -81,7 +81,7 @@ def helper_constants(t):
     return tuple(out)
 
 
-def build(tier):
+def build(tier, only=None):
     import functional_algorithms.floating_point_algorithms as F
 
     rep = core.Report(PROP, tier)
@@ -90,7 +90,8 @@ def build(tier):
         "domains as documented: next: x normal and its neighbour normal; is_power_of_two: 2**lo <= |x| < 2**hi per format (from the docstring); is_one_or_three_times_power_of_two: P*x finite, x and the intermediate results normal",
         "is_power_of_two / is_one_or_three_times_power_of_two: the decorated implementation is called directly (the make_api wrapper's return-type check only accepts concrete booleans)",
         "next at float64: the branch that multiplies by 1 - 2**-p is attempted in the thorough tier only and not claimed (no solver head-room); the dividing branch, and both branches at float16/float32, are claimed (float32 multiplication branch: cvc5)",
-        "3Sum, 4Sum, add_dw, mul_add, dot2 and the fma emulations are NOT covered (no obligation is generated for them): their ULP bounds against the correctly rounded exact result were not reachable",
+        "3Sum, 4Sum, mul_add, dot2 and the fma emulations are NOT under contract: their ULP bounds against the correctly rounded exact result were not reachable deductively (monolithic bit-blasting of one exact two-sum does not finish at float16); a BOUNDED native stand-in on directed operand tuples is run instead and is never counted as proved",
+        "fma variants are exercised on their documented domains: fix_overflow=False away from the overflow margin, possibly_zero_z=False with z != 0; the intermediate-underflow region is reported best-effort only",
     )
     rep.extraction_drops.append("the make_api dispatch wrapper runs for real on a NumpyContext subclass")
     SymCtx = symfp.sym_ctx_class()
@@ -207,6 +208,12 @@ def build(tier):
     s.add(z3.fpIsNormal(x), z3.fpIsPositive(x), z3.fpToIEEEBV(z3.fpMul(z3.RNE(), x, symrun.fpval(1 + 2.0**-11, (5, 11)))) != z3.fpToIEEEBV(x) + 1)
     rep.add(core.smt("C11/canary/wrong-constant", PROP, s, text="canary: multiplying by 1 + 2**-p is not nextafter for every x", expect="sat", kind="canary", budget_s=60))
     rep.replayers["C11/"] = native_replay
+    # bounded stand-in for the compound operations (labelled bounded; never counted as proved)
+    if only is None or "bounded" in only:
+        from vf.contracts import C11_bounded
+
+        C11_bounded.run(rep, tier)
+        rep.replayers["C11/bounded"] = C11_bounded.replay
     return rep
 
 
@@ -248,7 +255,7 @@ def native_replay(o):
 
 
 def main(tier, only=None):
-    rep = build(tier)
+    rep = build(tier, only)
     if only:
         rep.obls = [o for o in rep.obls if only in o.id]
     return rep.finish()
@@ -257,6 +264,12 @@ def main(tier, only=None):
 def replay(path):
     d = json.load(open(path))
     o = core.Obligation(id=d["obligation"], prop=PROP, model=d.get("model"), meta=d.get("meta") or {})
+    if (o.meta or {}).get("part") == "bounded":
+        from vf.contracts import C11_bounded
+
+        again = C11_bounded.rerun(o.meta)
+        print(json.dumps(dict(recorded=o.meta.get("fails"), rerun=again), indent=1, default=str))
+        return 1 if (any(a.get("ulps", 0) > 1 for a in again) if again else bool(o.meta.get("fails"))) else 0
     info = native_replay(o)
     print(json.dumps(info, indent=1, default=str))
     return 1 if info.get("replayed") else 0
